@@ -115,11 +115,59 @@ pub fn profile_name() -> &'static str {
     }
 }
 
-pub fn gen_profile(name: &str, rng: &mut Rng) -> (GenCfg, bool) {
-    // returns (generator config, tiny volumes?)
+pub fn gen_profile(name: &str, rng: &mut Rng) -> (GenCfg, bool, Option<VolCfg>) {
+    // returns (generator config, tiny volumes?, forced volume)
     let mut g = GenCfg::default();
     let mut tiny = false;
+    let mut force = None;
     match name {
+        "rootfill" => {
+            // tiny fixed root directory filled with multi-slot names; creates/removes/renames only
+            g.w_ns = 92;
+            g.w_file = 4;
+            g.w_query = 2;
+            g.w_remount = 2;
+            g.max_ops = 120 + rng.usize_below(200);
+            g.max_nodes = 1000;
+            g.root_only = rng.chance(3, 4);
+            g.varied_lengths = true;
+            g.dots = false;
+            g.invalid_names = false;
+            let fat = *rng.pick(&[12u8, 12, 16]);
+            force = Some(VolCfg {
+                fat,
+                bps: 512,
+                spc: *rng.pick(&[1u8, 1, 2]),
+                nfats: 1 + rng.below(2) as u8,
+                root_entries: *rng.pick(&[16u16, 16, 32]),
+                clusters: if fat == 12 { rng.range(4, 30) as u32 } else { 4085 },
+                extra: 0,
+                garbage: rng.chance(1, 2),
+            });
+        }
+        "dirfill" => {
+            // tiny volumes: cluster directories grow until the volume is full
+            g.w_ns = 70;
+            g.w_file = 26;
+            g.w_query = 2;
+            g.w_remount = 2;
+            g.max_ops = 150 + rng.usize_below(250);
+            g.max_nodes = 1000;
+            g.varied_lengths = true;
+            g.invalid_names = false;
+            g.max_file_clusters = 3;
+            let fat32 = rng.chance(1, 4);
+            force = Some(VolCfg {
+                fat: if fat32 { 32 } else { 12 },
+                bps: 512,
+                spc: 1,
+                nfats: 1 + rng.below(2) as u8,
+                root_entries: if fat32 { 0 } else { 512 },
+                clusters: if fat32 { 65525 } else { rng.range(5, 24) as u32 },
+                extra: 0,
+                garbage: rng.chance(1, 2),
+            });
+        }
         "tree" => {
             g.w_ns = 80;
             g.w_file = 15;
@@ -148,7 +196,7 @@ pub fn gen_profile(name: &str, rng: &mut Rng) -> (GenCfg, bool) {
             g.max_ops = 50 + rng.usize_below(200);
         }
     }
-    (g, tiny)
+    (g, tiny, force)
 }
 
 pub fn run(args: &Args, rep: &mut Report) {
@@ -173,9 +221,12 @@ pub fn run(args: &Args, rep: &mut Report) {
             break;
         }
         let mut rng = Rng::derive(seed, 0x5e55, id);
-        let (gcfg, tiny) = gen_profile(&profile, &mut rng);
+        let (gcfg, tiny, force) = gen_profile(&profile, &mut rng);
         let fixed_fat = args.get("fat").and_then(|v| v.parse::<u8>().ok());
         let mut vc = grid(&mut rng, tiny);
+        if let Some(f) = force {
+            vc = f;
+        }
         if let Some(f) = fixed_fat {
             // redraw until the width matches (bounded)
             for _ in 0..64 {
